@@ -63,7 +63,7 @@ def do_import(out_dir: Path, prop: str):
     for meta in sorted(out_dir.glob("meta*.json")):
         n = meta.stem[4:]
         patch = out_dir / f"patch{n}.diff"
-        demos = list(out_dir.glob(f"demo{n}.*"))
+        demos = [d for d in sorted(out_dir.glob(f"demo{n}.*")) if d.suffix in (".py", ".sh")]
         if not patch.exists() or not demos:
             print(f"{prop}-{n}: incomplete, skipped")
             continue
